@@ -1,6 +1,7 @@
 import BlochVerif.Eval.Model
 import BlochVerif.Obj.Model
 import BlochVerif.Sem.Decls
+import BlochVerif.Sem.DeclsProofs
 /-!
 # C10 — declaration order
 
@@ -171,6 +172,11 @@ theorem acceptance_order_independent (p p' : Prog) (hc : p.classes.Perm p'.class
       funext c; exact chainOK_perm _ _ hc hnd _ _
     rw [hb, hb2, hch, ← all_perm hc, ← all_perm hc, ← all_perm hf]
   · simp [hnd]
+
+/-- the chain test inside `accept` is exact: its bound (number of classes + 1) never rejects a chain that ends, because
+a walk that ends visits pairwise different declared classes (`Sem/DeclsProofs.lean`) -/
+theorem inheritance_test_is_exact (cs : List Cls) (n : String) :
+    chainOK cs (cs.length + 1) n = true ↔ ∃ k, chainOK cs k n = true := chainOK_iff_terminates cs n
 
 /-- non-vacuity: accepted with a derived class and a caller written first; rejected for a cycle, a missing base,
 a wrong arity, in either order -/
